@@ -1298,7 +1298,9 @@ class Stopper(Commander):
         # populate stopping jobs for all applications
         for application in self.supvisors.context.applications.values():
             # do not check the application state are running processes may be excluded in the evaluation
-            if application.has_running_processes():
+            # NOTE: a process that is STOPPING is still to be waited for before the next applications are stopped
+            if (application.has_running_processes()
+                    or any(process.running_identifiers for process in application.processes.values())):
                 self.logger.info(f'Stopper.stop_applications: stopping {application.application_name}')
                 self.store_application(application)
         self.logger.debug(f'Stopper.stop_applications: planned_jobs={self.planned_jobs}')
